@@ -735,8 +735,12 @@ def expand_temps (fn, known_locals):
     # uses in nested scopes (closures) block expansion
     nested_use = False
     for n in ast.walk(fn):
-      if n is not fn and isinstance(n, SCOPES):
+      if n is not fn and isinstance(n, FUNC + (ast.Lambda, ast.ClassDef)):
         if any(isinstance(x, ast.Name) and x.id == nm for x in ast.walk(n)): nested_use = True
+      elif isinstance(n, (ast.ListComp, ast.SetComp, ast.DictComp, ast.GeneratorExp)):
+        # usable inside a comprehension unless the comprehension rebinds a name the expression reads
+        bound_ = set(x.id for g_ in n.generators for x in ast.walk(g_.target) if isinstance(x, ast.Name))
+        if any(isinstance(x, ast.Name) and x.id == nm for x in ast.walk(n)) and (bound_ & rnames): nested_use = True
     if nested_use or not uses: continue
     if not strictly_pure:
       # an impure right-hand side may only move to a single use in the very next statement (e.g. rv = f(x); return rv)
